@@ -102,6 +102,8 @@ def make_cases(tbl, seed, k_random, k_corrupt):
                 ('spliced-prefix', other[0].decode() + s[len(other[0]):]),
                 ('bad-checksum', b58ref.b58(bp + p + badck)),
                 ('non-alphabet', s[:pos] + '0Il'[rng.randrange(3)] + s[pos + 1:]),
+                ('padded-behind', s + '\n \t\r'[rng.randrange(4)]),          # a valid text with white space around it is another, longer string
+                ('padded-in-front', ' ' + s),
                 ('short-payload', b58ref.b58check(bp, p[:-1])),
                 ('long-payload', b58ref.b58check(bp, p + b'\x00')),
                 ('unknown-binary-prefix', b58ref.b58check(unknown, p)),
@@ -225,7 +227,7 @@ def run(ctx):
     classes = ['zero', 'ones'] if ctx.quick else ['zero', 'ones', 'zero-ff', 'ones-00', 'low', 'high', 'mid']
     ctx.rule = ('kind table read from the running code (%d rows); Leg A: TLC encodes, per row, the payload/checksum classes %s and every concrete case three digits per step and '
                 'checks the end points, the shape of every encoding, invertibility and that the (length, human prefix) decoder accepts exactly the encodings; '
-                'Leg B: per row payloads {zeros, ones, %d seeded random, two containing the binary prefix of their own kind} are encoded and 12 corruption classes of %d valid text(s) per row are decoded by the model, the checksum '
+                'Leg B: per row payloads {zeros, ones, %d seeded random, two containing the binary prefix of their own kind} are encoded and 14 corruption classes of %d valid text(s) per row are decoded by the model, the checksum '
                 'is interpreted with hashlib, and base58_encode / base58_decode / is_* are compared with the model; non-trivial = every case (distinct row x payload / text)'
                 % (len(tbl), classes, k_random, k_corrupt))
     ctx.assumptions = ['Cksum is uninterpreted in the spec and interpreted by hashlib sha256(sha256(.))[:4] in the harness',
@@ -340,6 +342,6 @@ META = {
              'verdicts (checksum interpreted by hashlib) are compared with base58_encode, base58_decode and the is_* validators.'),
     'design_ref': 'DESIGN.md section 5 C09',
     'note': ('Trusted: table extraction, hashlib interpretation of the checksum, corruption generator. Per row: payloads zeros / ones / seeded random (1 quick, 12 thorough), '
-             '12 corruption classes of 1 (3) valid texts per row; the digit-by-digit definitions are compared on the lower end points (quick) / on every input (thorough). Binary prefixes are taken from the code and only checked against the documented human prefix.'),
+             '14 corruption classes of 1 (3) valid texts per row; the digit-by-digit definitions are compared on the lower end points (quick) / on every input (thorough). Binary prefixes are taken from the code and only checked against the documented human prefix.'),
     'technique': 'TLA+ spec + TLC exhaustive model checking over the table; model-evaluated cases replayed into base58_encode / base58_decode / is_*',
 }
